@@ -158,7 +158,7 @@ def ftolTest (opts : Opts α) (o : Obs α) (rho : Rho α) : Bool :=
     `1/Δ` overflows in `double` and NaN is accepted — known finding KF-C09-zero-residual-ptol0-delta-underflow);
     `true` = the repaired loop, where an accepted iteration with `r_n == 0` sets `status = Ftol`:
     `if (r_n == 0 || (std::abs(actu_red) < opts.ftol && pred_red < opts.ftol && rho <= 2.))`. -/
-def zeroResidualConverged : Bool := false
+def zeroResidualConverged : Bool := true
 
 /-- `d.cwiseProduct(dx).stableNorm() < ptol * static_cast<double>(dx.size())` -/
 def ptolTest (opts : Opts α) (o : Obs α) : Bool := decide (o.ddxn < opts.ptol * nat o.n)
